@@ -43,8 +43,10 @@ if [ "$suite" != "0" ]; then
   still=0
   for t in $(cat $log.suite.json.bad); do
     pkg=${t%%::*}; name=${t##*::}; ok=1
+    # tests that shell out to `go run` wait only 10 s for it: warm the build cache first
+    (go build -o /dev/null ./cmd/... ; PATH=/opt/veriftools/go1.26.8/bin:$PATH go build -o /dev/null ./cmd/...) >/dev/null 2>&1
     for try in 1 2 3; do
-      if go1.26.8 test -vet=off -count=1 -run "^${name}\$" "$pkg" >> $log 2>&1; then ok=0; break; fi
+      if PATH=/opt/veriftools/go1.26.8/bin:$PATH go1.26.8 test -vet=off -count=1 -run "^${name}\$" "$pkg" >> $log 2>&1; then ok=0; break; fi
     done
     echo "re-run of $t alone: $([ $ok = 0 ] && echo passes || echo FAILS)" >> $log
     [ $ok = 0 ] || still=$((still+1))
